@@ -55,6 +55,7 @@ func C06(c *core.Ctx) {
 	c.Rule("C06-R3", "unquote / UnmarshalText / MarshalText symmetry", 5)
 	c.Rule("C06-R4", "printer stays inside the pattern", 2)
 	c06PowerTables(c)
+	c11ShippedPatterns(c, "C06-R6")
 
 	apat, apos, ok := schemaPattern(p, "Amount")
 	if !ok {
